@@ -172,8 +172,10 @@ func ExecuteRace(ctx context.Context, members []Member) (proto.Message, int, err
 // executeEach runs each of the members in their own goroutine.
 // The returned chan will contain the responses in completion order.
 // The chan will be closed once all members have returned a result.
+// The chan has room for every response, a caller that stops receiving early (ExecuteFast, ExecuteRace)
+// does not leave the remaining members' goroutines blocked on their send.
 func executeEach(ctx context.Context, members []Member) <-chan memberResponse {
-	responses := make(chan memberResponse)
+	responses := make(chan memberResponse, len(members))
 	var all sync.WaitGroup
 	all.Add(len(members))
 
